@@ -62,6 +62,8 @@ impl Hop {
 pub struct Want {
     pub ids: bool,
     pub as_map: bool,
+    /// also serialise through the length-hint-insensitive serde JSON writer (D17 characterisation)
+    pub nohint: bool,
 }
 
 #[derive(Debug, Clone, Default)]
@@ -95,6 +97,8 @@ pub struct Obs {
     pub display: String,
     pub serde: Result<String, String>,
     pub sval: Result<String, String>,
+    /// serde rendering by `jsonw` (ignores `serialize_seq` length hints)
+    pub serde_nohint: Option<Result<String, String>>,
     pub casts: Casts,
     pub as_f64: f64,
     pub is_null: bool,
@@ -146,6 +150,7 @@ pub fn observe(v: &Value, want: Want) -> Obs {
         display: v.to_string(),
         serde: serde_json::to_string(v).map_err(|e| e.to_string()),
         sval: sval_json::stream_to_string(v).map_err(|e| e.to_string()),
+        serde_nohint: if want.nohint { Some(crate::jsonw::to_json(v)) } else { None },
         casts,
         as_f64: v.as_f64(),
         is_null: v.is_null(),
